@@ -2,7 +2,9 @@ package main
 
 import (
 	"fmt"
+	"go/constant"
 	"go/token"
+	"sort"
 	"strings"
 
 	"golang.org/x/tools/go/ssa"
@@ -20,6 +22,7 @@ func checkC11(w *World, r *Report, tier string) propMeta {
 	c11R2(w, r)
 	c11R3(w, r)
 	c11R4(w, r)
+	c11R6(w, r)
 	// R5 = C13.R2–R3
 	return propMeta{
 		explanation: "Content preservation of merging as per-iteration path rules and value-identity checks: (R1) in mergeDataBlocks' scan loop every row returned by scanner.Next is indexed, written (length prefix derived from len(row), then the row) and counted before the loop's back edge, and the loop's only other exits are error returns; (R2) every block index of a group is loaded and scanned to the end, every merge group goes to exactly one of copyDataBlock/mergeDataBlocks, every block of every candidate file is collected; (R3) a merged block's PartitionID is the key its blocks were grouped under and its MinMaxIndexes is the running union over all group members; (R4) copyDataBlock writes exactly the bytes it read at [RowDataOffset, +RowDataSize) after decodeBlockRowData verified them, and the new metadata is a struct copy in which only RowDataOffset, BloomFilterOffset and BloomFilterSize are overwritten; (R5) sources are deleted only for committed groups (C13.R2–R3).",
@@ -67,12 +70,34 @@ func loopBackEdgeFacts(fl *Flow, in ssa.Instruction) []*Facts {
 func innermostHeader(b *ssa.BasicBlock) *ssa.BasicBlock {
 	for h := b; h != nil; h = h.Idom() {
 		for _, p := range h.Preds {
-			if h.Dominates(p) && (p == b || reachableFrom(b)[p]) {
+			// b is in the natural loop of the back edge p->h iff b reaches p
+			// without passing through h
+			if h.Dominates(p) && (p == b || h == b || reachesAvoiding(b, p, h)) {
 				return h
 			}
 		}
 	}
 	return nil
+}
+
+func reachesAvoiding(from, to, avoid *ssa.BasicBlock) bool {
+	seen := map[*ssa.BasicBlock]bool{from: true}
+	work := []*ssa.BasicBlock{from}
+	for len(work) > 0 {
+		x := work[len(work)-1]
+		work = work[:len(work)-1]
+		for _, s := range x.Succs {
+			if s == avoid || seen[s] {
+				continue
+			}
+			if s == to {
+				return true
+			}
+			seen[s] = true
+			work = append(work, s)
+		}
+	}
+	return false
 }
 
 func c11R1(w *World, r *Report) {
@@ -325,6 +350,253 @@ func c11R2(w *World, r *Report) {
 			}
 		}
 	}
+}
+
+// c11R6: the greedy block grouping partitions each bucket — every index is
+// visited, becomes a seed unless already grouped, joins a group only while not
+// yet grouped, and is marked grouped when it joins; every group is recorded.
+func c11R6(w *World, r *Report) {
+	const rule = "C11.R6"
+	r.rule(rule, "grouping partitions the bucket: the seed loop ranges over the whole bucket; an index joins a group (as seed or member) only on the not-yet-grouped edge and is marked grouped before the loop moves on; every seed's group is recorded", 8)
+	fn := fnOrUndecided(w, r, rule, "BloomSearchEngine.processPartitionBlocks")
+	if fn == nil {
+		return
+	}
+	// the `used` marker slice: a []bool made per bucket
+	isUsed := func(v ssa.Value) bool {
+		ms, ok := v.(*ssa.MakeSlice)
+		return ok && w.typeName(ms.Type()) == "[]bool"
+	}
+	bucketElemIdx := func(v ssa.Value) (ssa.Value, bool) {
+		// v = bucket[idx] (a load of IndexAddr on an []int that is a map lookup result)
+		u, ok := v.(*ssa.UnOp)
+		if !ok {
+			return nil, false
+		}
+		ia, ok := u.X.(*ssa.IndexAddr)
+		if !ok || w.typeName(ia.X.Type()) != "[]int" {
+			return nil, false
+		}
+		if _, isParam := ia.X.(*ssa.Parameter); isParam {
+			return nil, false // blockIndices[...] is not the bucket
+		}
+		return ia.Index, true
+	}
+	joinSites := map[ssa.Instruction]string{}
+	joinNo := map[ssa.Instruction]int{}
+	joinLabel := func(site ssa.Instruction, idx string) string {
+		if _, ok := joinNo[site]; !ok {
+			joinNo[site] = len(joinNo) + 1
+		}
+		joinSites[site] = idx
+		return fmt.Sprintf("joined:%s:#%d", idx, joinNo[site])
+	}
+	cl := &Classifier{
+		Cond: func(c Cond, taken bool) *Event {
+			if c.Op != "truth" {
+				return nil
+			}
+			u, ok := c.X.(*ssa.UnOp)
+			if !ok {
+				return nil
+			}
+			ia, ok := u.X.(*ssa.IndexAddr)
+			if !ok || !isUsed(ia.X) {
+				return nil
+			}
+			if taken {
+				return ev("skippedUsed")
+			}
+			return ev("free:" + ia.Index.Name())
+		},
+		Instr: func(in ssa.Instruction) *Event {
+			st, ok := in.(*ssa.Store)
+			if !ok {
+				return nil
+			}
+			if ia, ok := st.Addr.(*ssa.IndexAddr); ok {
+				if isUsed(ia.X) {
+					if b, isC := constBool(st.Val); isC && b {
+						return ev("marked:" + ia.Index.Name()).kill("joined:" + ia.Index.Name() + ":*")
+					}
+				}
+				// the seed: a one-element []int literal holding bucket[s]
+				if a, ok := ia.X.(*ssa.Alloc); ok && strings.Contains(a.Type().String(), "[1]int") && !isVarargsPack(a) {
+					if idx, ok := bucketElemIdx(st.Val); ok {
+						return &Event{May: []string{joinLabel(in, idx.Name())}}
+					}
+				}
+			}
+			return nil
+		},
+		Call: func(site ssa.Instruction, c *ssa.CallCommon) *Event {
+			call, ok := site.(*ssa.Call)
+			if !ok {
+				return nil
+			}
+			base, elems, ok := appendedElems(call)
+			if !ok || len(elems) != 1 {
+				return nil
+			}
+			switch w.typeName(base.Type()) {
+			case "[]int":
+				if idx, ok := bucketElemIdx(elems[0]); ok {
+					return &Event{May: []string{joinLabel(site, idx.Name())}}
+				}
+			case "[][]int":
+				return ev("recorded")
+			}
+			return nil
+		},
+	}
+	fl := newFlow(w, fn, cl)
+	// joins: only on the not-yet-grouped edge; a join already preceded by its
+	// mark in the same iteration (the seed) needs no later mark
+	preMarked := map[string]bool{}
+	groupHdrs := map[*ssa.BasicBlock]bool{}
+	var seedHdr *ssa.BasicBlock
+	var sites []ssa.Instruction
+	for site := range joinSites {
+		sites = append(sites, site)
+	}
+	sort.Slice(sites, func(i, j int) bool { return joinNo[sites[i]] < joinNo[sites[j]] })
+	nSeed := 0
+	for _, site := range sites {
+		idx := joinSites[site]
+		f := fl.Before(site)
+		kind := "member"
+		if _, isStore := site.(*ssa.Store); isStore {
+			kind = "seed"
+			nSeed++
+			seedHdr = innermostHeader(site.Block())
+		}
+		r.check(f.Must("free:"+idx), rule, fmt.Sprintf("processPartitionBlocks:join-only-if-free(%s)", kind), w.instrPos(site), "joins only while not yet grouped", "a block index can join a merge group without having been tested as not-yet-grouped: the same block could be emitted in two groups (its rows duplicated)")
+		if f.Must("marked:"+idx) || (kind == "seed" && seedNeverRevisited(site.(*ssa.Store), sites)) {
+			preMarked[fmt.Sprintf("joined:%s:#%d", idx, joinNo[site])] = true
+		}
+		if h := innermostHeader(site.Block()); h != nil {
+			groupHdrs[h] = true
+		}
+	}
+	if len(sites) < 2 || nSeed != 1 || seedHdr == nil {
+		r.undecided(rule, "processPartitionBlocks:joins", w.pos(fn.Pos()), fmt.Sprintf("expected one seed and at least one member join inside loops, found %d joins, %d seeds: %s", len(sites), nSeed, func() string {
+			o := ""
+			for _, s := range sites {
+				o += w.instrPos(s) + " "
+			}
+			return o
+		}()))
+		return
+	}
+	// back edges of the grouping loops: nothing joined stays unmarked; every
+	// seed-loop iteration records its group or skipped a grouped index
+	for _, be := range backEdges(fn) {
+		b := fn.Blocks[be[0]]
+		hdr := b.Succs[be[1]]
+		if !groupHdrs[hdr] {
+			continue
+		}
+		for _, e := range iterationEnds(fl, b, be[1], 0) {
+			f := e.facts
+			var pending []string
+			for l := range f.may {
+				if strings.HasPrefix(l, "joined:") && !preMarked[l] {
+					pending = append(pending, l)
+				}
+			}
+			sort.Strings(pending)
+			r.check(len(pending) == 0, rule, fmt.Sprintf("processPartitionBlocks:marked-before-next(b%d->b%d)", e.from.Index, hdr.Index), w.instrPos(e.from.Instrs[len(e.from.Instrs)-1]), "every joined index is marked grouped before the loop moves on", fmt.Sprintf("an index that joined a group is not marked grouped before the next iteration (%v): it can be seeded or joined again (duplicate rows)", pending))
+			if hdr == seedHdr {
+				r.check(f.Must("recorded") || f.Must("skippedUsed"), rule, fmt.Sprintf("processPartitionBlocks:seed-recorded(b%d->b%d)", e.from.Index, hdr.Index), w.instrPos(e.from.Instrs[len(e.from.Instrs)-1]), "each seed's group is recorded (or the index was already grouped)", "a seed's group can be dropped before it is recorded: its blocks are in no output file while their sources are deleted")
+			}
+		}
+	}
+	// the seed index counts 0,1,2,… up to len(bucket) of the very slice the seed
+	// is read from: every bucket position is visited in turn
+	var seedSite *ssa.Store
+	for _, site := range sites {
+		if st, ok := site.(*ssa.Store); ok {
+			seedSite = st
+		}
+	}
+	seedIdx := seedSite.Val.(*ssa.UnOp).X.(*ssa.IndexAddr).Index
+	bucket := seedSite.Val.(*ssa.UnOp).X.(*ssa.IndexAddr).X
+	init, bound, okUp := countsUp(seedIdx)
+	visitsAll := false
+	if okUp {
+		z, isC := constInt(init)
+		visitsAll = isC && z == 0 && lenOfValue(bound, bucket)
+	}
+	r.check(visitsAll, rule, "processPartitionBlocks:seed-loop-visits-every-index", w.instrPos(seedHdr.Instrs[0]), "seed index counts 0..len(bucket) by one", "the seed loop does not visit every bucket position in turn (its index does not count from 0 to len(bucket) by one): a block skipped inside a group's span is never seeded, copied or merged — its rows vanish when the sources are deleted")
+}
+
+// countsUp recognises a loop index that takes init, init+1, … while < bound:
+// either the range form (v = phi[-1, v] + 1, tested v < bound, so init = 0) or
+// the three-clause form (v = phi[init, v+1], tested v < bound).
+func countsUp(v ssa.Value) (init ssa.Value, bound ssa.Value, ok bool) {
+	isPlusOne := func(x ssa.Value, of ssa.Value) bool {
+		b, ok := x.(*ssa.BinOp)
+		if !ok || b.Op != token.ADD || b.X != of {
+			return false
+		}
+		one, isC := constInt(b.Y)
+		return isC && one == 1
+	}
+	headerBound := func(hdr *ssa.BasicBlock) ssa.Value {
+		iff, ok := hdr.Instrs[len(hdr.Instrs)-1].(*ssa.If)
+		if !ok {
+			return nil
+		}
+		cmp, ok := iff.Cond.(*ssa.BinOp)
+		if !ok || cmp.Op != token.LSS || cmp.X != v {
+			return nil
+		}
+		// the loop body is the true successor
+		return cmp.Y
+	}
+	switch x := v.(type) {
+	case *ssa.BinOp: // range form
+		ph, isPhi := x.X.(*ssa.Phi)
+		if !isPhi || !isPlusOne(x, ph) || x.Block() != ph.Block() {
+			return nil, nil, false
+		}
+		nInit := 0
+		for i, e := range ph.Edges {
+			if e == ssa.Value(x) && ph.Block().Dominates(ph.Block().Preds[i]) {
+				continue
+			}
+			if c, isC := constInt(e); isC && c == -1 && !ph.Block().Dominates(ph.Block().Preds[i]) {
+				nInit++
+				continue
+			}
+			return nil, nil, false
+		}
+		bd := headerBound(ph.Block())
+		if nInit != 1 || bd == nil {
+			return nil, nil, false
+		}
+		return ssa.NewConst(constant.MakeInt64(0), x.Type()), bd, true
+	case *ssa.Phi: // three-clause form
+		var in ssa.Value
+		for i, e := range x.Edges {
+			if x.Block().Dominates(x.Block().Preds[i]) {
+				if !isPlusOne(e, x) {
+					return nil, nil, false
+				}
+				continue
+			}
+			if in != nil {
+				return nil, nil, false
+			}
+			in = e
+		}
+		bd := headerBound(x.Block())
+		if in == nil || bd == nil {
+			return nil, nil, false
+		}
+		return in, bd, true
+	}
+	return nil, nil, false
 }
 
 func c11R3(w *World, r *Report) {
@@ -586,8 +858,10 @@ func limitGuardClassifier(w *World, onCond func(limit string, other ssa.Value)) 
 		}
 		// a guard whose tested operand includes the size of the group being grown
 		// is the per-group guard; it gets its own label
+		// (the per-group guard adds the group's own size to a running total: both a
+		// len() term and an accumulated variable must appear in the tested operand)
 		suffix := ""
-		if directLen(other, 0) {
+		if directLen(other, 0) && len(phiComments(other)) > 0 {
 			suffix = "+len"
 		}
 		if within {
@@ -830,4 +1104,111 @@ func c12R2(w *World, r *Report) {
 		})
 		r.check(usesPartition && usesKeys && sorted && prefixed >= 2, rule, "blockMergeKey:covers-partition-and-keyset", w.pos(fn.Pos()), "partition + sorted, length-prefixed minmax keys", fmt.Sprintf("blockMergeKey no longer covers partition=%v keyset=%v sorted=%v length-prefixes=%d: distinct (partition, key set) tuples can share a bucket", usesPartition, usesKeys, sorted, prefixed))
 	}
+}
+
+// lenOfValue: v is len(x) for exactly the SSA value x.
+func lenOfValue(v, x ssa.Value) bool {
+	c, ok := v.(*ssa.Call)
+	if !ok {
+		return false
+	}
+	b, ok := c.Call.Value.(*ssa.Builtin)
+	return ok && b.Name() == "len" && len(c.Call.Args) == 1 && c.Call.Args[0] == x
+}
+
+// isVarargsPack: the array only backs the variadic argument of an append call
+// (append(xs, v) is lowered to a one-element array, a slice of it, and the call).
+func isVarargsPack(a *ssa.Alloc) bool {
+	for _, ref := range *a.Referrers() {
+		sl, ok := ref.(*ssa.Slice)
+		if !ok {
+			continue
+		}
+		for _, r2 := range *sl.Referrers() {
+			if c, ok := r2.(*ssa.Call); ok {
+				if b, ok := c.Call.Value.(*ssa.Builtin); ok && b.Name() == "append" && len(c.Call.Args) == 2 && c.Call.Args[1] == ssa.Value(sl) {
+					return true
+				}
+			}
+		}
+	}
+	return false
+}
+
+// seedNeverRevisited: every member index counts up from seed+1 and the seed
+// index itself counts up, so the seed position is never tested again — its
+// grouped mark is then redundant and not demanded.
+func seedNeverRevisited(seed *ssa.Store, sites []ssa.Instruction) bool {
+	seedIdx := seed.Val.(*ssa.UnOp).X.(*ssa.IndexAddr).Index
+	if _, _, ok := countsUp(seedIdx); !ok {
+		return false
+	}
+	n := 0
+	for _, s := range sites {
+		call, ok := s.(*ssa.Call)
+		if !ok {
+			continue
+		}
+		_, elems, ok := appendedElems(call)
+		if !ok || len(elems) != 1 {
+			return false
+		}
+		u, ok := elems[0].(*ssa.UnOp)
+		if !ok {
+			return false
+		}
+		ia, ok := u.X.(*ssa.IndexAddr)
+		if !ok {
+			return false
+		}
+		init, _, ok := countsUp(ia.Index)
+		if !ok {
+			return false
+		}
+		b, ok := init.(*ssa.BinOp)
+		if !ok || b.Op != token.ADD || b.X != seedIdx {
+			return false
+		}
+		if one, isC := constInt(b.Y); !isC || one < 1 {
+			return false
+		}
+		n++
+	}
+	return n > 0
+}
+
+type iterEnd struct {
+	from  *ssa.BasicBlock
+	facts *Facts
+}
+
+// iterationEnds returns the facts at the end of each way through a loop body:
+// the back edge itself, or — when the back edge leaves a pure post block (only
+// phis, arithmetic and the jump, as in `for ...; i++`) that several paths
+// (`continue`s) fall into — each edge into that block, so that the paths are
+// judged separately instead of through their merge.
+func iterationEnds(fl *Flow, b *ssa.BasicBlock, si int, depth int) []iterEnd {
+	pure := len(b.Preds) > 1 && depth < 4
+	for _, in := range b.Instrs {
+		switch in.(type) {
+		case *ssa.Phi, *ssa.BinOp, *ssa.Jump:
+		default:
+			pure = false
+		}
+	}
+	if pure {
+		var out []iterEnd
+		for _, p := range b.Preds {
+			for pi, s := range p.Succs {
+				if s == b {
+					out = append(out, iterationEnds(fl, p, pi, depth+1)...)
+				}
+			}
+		}
+		return out
+	}
+	if f := fl.EdgeFacts(b, si); f != nil {
+		return []iterEnd{{b, f}}
+	}
+	return nil
 }
